@@ -151,6 +151,15 @@ func (e *Env) resolveType(x ast.Expr) types.Type {
 				return types.NewSlice(et)
 			}
 		}
+	case *ast.MapType:
+		kt, vt := e.resolveType(t.Key), e.resolveType(t.Value)
+		if kt != nil && vt != nil {
+			return types.NewMap(kt, vt)
+		}
+	case *ast.InterfaceType:
+		if t.Methods == nil || len(t.Methods.List) == 0 {
+			return types.NewInterfaceType(nil, nil)
+		}
 	}
 	return nil
 }
